@@ -673,7 +673,11 @@ func findLoops(f *ssa.Function) map[*ssa.BasicBlock]*loopInfo {
 	for h := range loops {
 		heads = append(heads, h)
 	}
-	sort.Slice(heads, func(i, j int) bool { return loopPos(heads[i]) < loopPos(heads[j]) || (loopPos(heads[i]) == loopPos(heads[j]) && heads[i].Index < heads[j].Index) })
+	// (phis carry the position of their variable's declaration, which has nothing to do with where the loop
+	// is: ordering by them would renumber loops when an edit changes which variables are loop-carried)
+	sort.Slice(heads, func(i, j int) bool {
+		return loopOrderPos(heads[i]) < loopOrderPos(heads[j]) || (loopOrderPos(heads[i]) == loopOrderPos(heads[j]) && heads[i].Index < heads[j].Index)
+	})
 	for i, h := range heads {
 		loops[h].ord = i + 1
 		for _, in := range h.Instrs {
@@ -683,6 +687,19 @@ func findLoops(f *ssa.Function) map[*ssa.BasicBlock]*loopInfo {
 		}
 	}
 	return loops
+}
+
+// loopOrderPos: the position that orders the loops of a function: the first positioned instruction of the
+// loop head (or of its successors) that is not a phi.
+func loopOrderPos(b *ssa.BasicBlock) token.Pos {
+	for _, blk := range append([]*ssa.BasicBlock{b}, b.Succs...) {
+		for _, in := range blk.Instrs {
+			if _, isPhi := in.(*ssa.Phi); !isPhi && in.Pos().IsValid() {
+				return in.Pos()
+			}
+		}
+	}
+	return loopPos(b)
 }
 
 func loopPos(b *ssa.BasicBlock) token.Pos {
